@@ -157,14 +157,15 @@ func firstLine(s string) string {
 
 var commitFlagKinds = []string{"absent", "nil", "commit", "commit-badsig", "commit-for-B", "commit-for-A'", "commit-by-other", "commit-for-A^",
 	// thorough only:
-	"nil-badsig", "nil-signed-for-A", "commit-other-round", "commit-other-chain", "commit-other-height", "absent-with-sig"}
+	"commit-for-A+256", "nil-badsig", "nil-signed-for-A", "commit-other-round", "commit-other-chain", "commit-other-height", "absent-with-sig"}
 
 const quickFlagKinds = 8
 
 // quick runs the first quickVariants variants (up to and including "arg-A^")
-const quickVariants = 10
+const quickVariants = 16
 
-var commitVariants = []string{"right", "size-1", "size+1", "arg-height+1", "commit-height+1", "arg-B", "arg-A'", "commit-A'", "commit-round+1", "arg-A^", "commit-A^", "commit-B"}
+var commitVariants = []string{"right", "size-1", "size+1", "arg-height+1", "commit-height+1", "arg-B", "arg-A'", "commit-A'", "commit-round+1", "arg-A^",
+	"arg-A+256", "arg-A+255", "arg-A+64k", "arg-A+2^24", "arg-A+2^31", "commit-A+256", "commit-A^", "commit-B"}
 
 type commitUniverse struct {
 	n       int
@@ -210,6 +211,8 @@ func newCommitUniverse(pw []int64) *commitUniverse {
 				e = append(e, mk(types.BlockIDFlagCommit, k.addr, sign(k, chainID, height, round, bAp, ts)))
 			case "commit-for-A^":
 				e = append(e, mk(types.BlockIDFlagCommit, k.addr, sign(k, chainID, height, round, bAr, ts)))
+			case "commit-for-A+256":
+				e = append(e, mk(types.BlockIDFlagCommit, k.addr, sign(k, chainID, height, round, bA256, ts)))
 			case "commit-by-other":
 				e = append(e, mk(types.BlockIDFlagCommit, other.addr, sign(other, chainID, height, round, bA, ts)))
 			case "nil-badsig":
@@ -277,6 +280,18 @@ func (cu *commitUniverse) build(flags []int, variant string) (*types.Commit, ref
 		c.Round = round + 1
 	case "arg-A^":
 		argID = refIDs[bAr]
+	case "arg-A+256":
+		argID = refIDs[bA256]
+	case "arg-A+255":
+		argID = refIDs[bA255]
+	case "arg-A+64k":
+		argID = refIDs[bA64k]
+	case "arg-A+2^24":
+		argID = refIDs[bA16m]
+	case "arg-A+2^31":
+		argID = refIDs[bA2g]
+	case "commit-A+256":
+		c.BlockID, argID = repoID(refIDs[bA256]), refIDs[bA256]
 	case "commit-A^":
 		c.BlockID, argID = repoID(refIDs[bAr]), refIDs[bAr]
 	case "commit-B":
